@@ -15,7 +15,8 @@ spec/pybridge/PyCallShapes.tla  TLC enumerates the ways a Go program declares an
                              function named through its binding passed as an argument of a call; every call must deliver all its
                              positional arguments in order; one Go package calling functions of a module and of its dotted submodule
                              (every subset of four symbols, names sorting before and after the submodule's); one Go package per
-                             case where the calling package's compile state matters, so that a compiler failure is attributed
+                             case where the calling package's compile state matters, so that a compiler failure is attributed;
+                             a Python function called from one kind of call site only, for eight kinds of site
 spec/pybridge/PyImportImpl.tla  layer B: llgo's mechanism (per-package init guard, link-once module global with nil test,
                              per-package symbol tables filled after the imports' init) checked against A (report only)
 binding: generated llgo programs linked against libpython3.11 send every value to the local Python module
@@ -1121,7 +1122,7 @@ REF_PYMOD = {"vmod": "vmod", "vpk_sub": "vpk.sub", "builtins": "builtins", "vpk"
 # colookup: the bindings are generated, with names of their own per case (pylib defines who00.., alpha00.., zeta00.. as
 # aliases): the binding of a name is shared by all packages of a program and filled by the first one that needs it
 SYM_PKG = {"vmod": "kvmod", "vpk": "kvpk", "vpk_sub": "kvsub"}
-SHAPE_PKG_IMPORT = {"bvmod.": '"c19prog/bvmod"', "bvsub.": '"c19prog/bvsub"', "kvmod.": '"c19prog/kvmod"', "kvpk.": '"c19prog/kvpk"', "kvsub.": '"c19prog/kvsub"', "std.": '"github.com/goplus/lib/py/std"',
+SHAPE_PKG_IMPORT = {"bvmod.": '"c19prog/bvmod"', "bvsub.": '"c19prog/bvsub"', "kvmod.": '"c19prog/kvmod"', "kvpk.": '"c19prog/kvpk"', "kvsub.": '"c19prog/kvsub"', "kvs.": '"c19prog/kvs"', "std.": '"github.com/goplus/lib/py/std"',
                     "bdual.": '"c19prog/bdual"', "bgv.": '"c19prog/bgv"', "math.": '"github.com/goplus/lib/py/math"',
                     "py.": '"github.com/goplus/lib/py"', "vx.": '"c19prog/vx"', "ck.": '"c19prog/ck"'}
 
@@ -1146,13 +1147,15 @@ def shape_case_key(c):
         return "govar:fixed=%d:%s:n=%d" % (c["fixed"], c["form"], c["nvar"])
     if fam == "hypot":
         return "hypot:" + (",".join(str(x) for x in c["coords"]) or "none")
+    if fam == "site":
+        return "site:" + c["site"]
     if fam == "colookup":
         return "colookup:" + "+".join("%s.%s" % (y["mod"], y["attr"]) for y in c["syms"])
     return "funcref:n=%d:pos=%d:%s.%s" % (c["n"], c["pos"], c["ref"]["mod"], c["ref"]["attr"])
 
 
 def shape_pyname(c):
-    return {"dual": "fv", "funcref": "fv", "govar": "gv" if c.get("fixed") == 0 else "gv1"}[c["fam"]]
+    return {"dual": "fv", "funcref": "fv", "site": "sv", "govar": "gv" if c.get("fixed") == 0 else "gv1"}[c["fam"]]
 
 
 def shape_expectation(c):
@@ -1189,6 +1192,8 @@ def shape_go_calls(c):
         return ["math.Hypot(%s)" % ", ".join("py.Float(%d)" % x for x in c["coords"])]
     if fam == "colookup":
         return ["%s.%s%02d()" % (SYM_PKG[y["mod"]], y["attr"].capitalize(), c["_alias"]) for y in c["syms"]]
+    if fam == "site":
+        return ["kvs.Sv%02d(%s)" % (c["_alias"], shape_go_arg(c["calls"][0]["args"][0], 0))]
     if fam == "dual":
         return ["bdual.D%d(%s)" % (len(call["args"]), ", ".join(shape_go_arg(a, i) for i, a in enumerate(call["args"]))) for call in c["calls"]]
     if fam == "funcref":
@@ -1209,13 +1214,48 @@ def shape_go_calls(c):
 def shape_py_calls(c):
     if c["fam"] == "hypot":
         return ["math.hypot(%s)" % ", ".join("%d.0" % x for x in c["coords"])]
+    if c["fam"] == "site":
+        return ["vmod.sv%02d(%s)" % (c["_alias"], shape_py_arg(c["calls"][0]["args"][0]))]
     if c["fam"] == "colookup":
         return ["getattr(importlib.import_module(%r), %r)()" % (REF_PYMOD[y["mod"]], "%s%02d" % (y["attr"], c["_alias"])) for y in c["syms"]]
     return ["vmod.%s(%s)" % (shape_pyname(c), ", ".join(shape_py_arg(a) for a in call["args"])) for call in c["calls"]]
 
 
 def shape_pkg_of(i, c):
-    return {"dual": "du%02d" % i, "govar": "gvp", "hypot": "hyp", "funcref": "frp", "colookup": "lk%02d" % i}[c["fam"]]
+    return {"dual": "du%02d" % i, "govar": "gvp", "hypot": "hyp", "funcref": "frp", "colookup": "lk%02d" % i, "site": "st%02d" % i}[c["fam"]]
+
+
+SITE_BODY = {
+    # %(call)s is the call expression, %(id)d the case; every package defines caseN() that prints the result
+    "func": "func call() *py.Object {\n\treturn %(call)s\n}\n\nfunc case%(id)d() {\n\tif ck.Start(%(id)d) {\n\t\tprintln(\"R\", vx.Enc(call()))\n\t}\n}\n",
+    "closure": "func case%(id)d() {\n\tif ck.Start(%(id)d) {\n\t\tf := func() *py.Object { return %(call)s }\n\t\tprintln(\"R\", vx.Enc(f()))\n\t}\n}\n",
+    "method": "type caller struct{ n int }\n\nfunc (caller) Call() *py.Object {\n\treturn %(call)s\n}\n\nfunc case%(id)d() {\n\tif ck.Start(%(id)d) {\n\t\tprintln(\"R\", vx.Enc(caller{}.Call()))\n\t}\n}\n",
+    "pkgvar": "var started = ck.InitStart(%(id)d)\nvar held = %(call)s\nvar done = ck.InitDone(%(id)d)\n\nfunc case%(id)d() {\n\tif started && done {\n\t\tprintln(\"G\", %(id)d)\n\t\tprintln(\"R\", vx.Enc(held))\n\t}\n}\n",
+    "initfn": "var started bool\nvar held *py.Object\n\nfunc init() {\n\tstarted = ck.InitStart(%(id)d)\n\theld = %(call)s\n\tck.InitDone(%(id)d)\n}\n\nfunc case%(id)d() {\n\tif started {\n\t\tprintln(\"G\", %(id)d)\n\t\tprintln(\"R\", vx.Enc(held))\n\t}\n}\n",
+    "generic": "func gen[X any](x X) *py.Object {\n\t_ = x\n\treturn %(call)s\n}\n\nfunc case%(id)d() {\n\tif ck.Start(%(id)d) {\n\t\tprintln(\"R\", vx.Enc(gen[int](0)))\n\t}\n}\n",
+    "genmethod": "type box[X any] struct{ v X }\n\nfunc (b box[X]) Call() *py.Object {\n\t_ = b.v\n\treturn %(call)s\n}\n\nfunc case%(id)d() {\n\tif ck.Start(%(id)d) {\n\t\tprintln(\"R\", vx.Enc(box[int]{}.Call()))\n\t}\n}\n",
+    "xgeneric": "func case%(id)d() {\n\tif ck.Start(%(id)d) {\n\t\tprintln(\"R\", vx.Enc(sx%(id)02d.Gen[int](0)))\n\t}\n}\n",
+}
+
+
+def go_file(pkg, text, extra_imports=()):
+    imps = sorted(set(v for k, v in SHAPE_PKG_IMPORT.items() if k in text) | set(extra_imports))
+    return "// generated by /verif/vlib/c19.py (call shapes)\npackage %s\n\nimport (\n%s\n)\n\n%s\n" % (pkg, "\n".join("\t" + x for x in imps), text)
+
+
+def gen_site_package(i, c):
+    """the package of one call-site case: the only place in the program where sv<alias> is called"""
+    pkg = shape_pkg_of(i, c)
+    call = shape_go_calls(c)[0]
+    files = {}
+    extra = []
+    if c["site"] == "xgeneric":         # the generic function lives in a package of its own and is instantiated only here
+        hp = "sx%02d" % i
+        files["%s/%s.go" % (hp, hp)] = go_file(hp, "func Gen[X any](x X) *py.Object {\n\t_ = x\n\treturn %s\n}" % call)
+        extra = ['"c19prog/%s"' % hp]
+    text = SITE_BODY[c["site"]] % {"call": call, "id": i} + "\nfunc Run() {\n\tcase%d()\n}" % i
+    files["%s/%s.go" % (pkg, pkg)] = go_file(pkg, text, extra)
+    return files
 
 
 def gen_shape_modules(cases, dropped=()):
@@ -1232,6 +1272,10 @@ def gen_shape_modules(cases, dropped=()):
             for y in c["syms"]:
                 binds.setdefault(y["mod"], []).append("//go:linkname %s%02d py.%s%02d\nfunc %s%02d() *py.Object\n" % (
                     y["attr"].capitalize(), c["_alias"], y["attr"], c["_alias"], y["attr"].capitalize(), c["_alias"]))
+    svs = ["//go:linkname Sv%02d py.sv%02d\nfunc Sv%02d(a *py.Object) *py.Object\n" % ((c["_alias"],) * 3) for c in cases if c["fam"] == "site"]
+    if svs:
+        files["kvs/kvs.go"] = ("// generated by /verif/vlib/c19.py: one binding of vmod.sv per call-site case\npackage kvs\n\nimport (\n\t_ \"unsafe\"\n\n"
+                               "\t\"github.com/goplus/lib/py\"\n)\n\nconst LLGoPackage = \"py.vmod\"\n\n" + "\n".join(svs))
     for mod, decls in binds.items():
         files["%s/%s.go" % (SYM_PKG[mod], SYM_PKG[mod])] = (
             "// generated by /verif/vlib/c19.py: bindings of Python module %s, one set of names per colookup case\npackage %s\n\n"
@@ -1239,6 +1283,10 @@ def gen_shape_modules(cases, dropped=()):
             % (REF_PYMOD[mod], SYM_PKG[mod], REF_PYMOD[mod], "\n".join(decls)))
     for pkg, ids in pkgs.items():
         if pkg in dropped:
+            continue
+        if cases[ids[0]]["fam"] == "site":
+            files.update(gen_site_package(ids[0], cases[ids[0]]))
+            order.append((ids[0], pkg))
             continue
         body = []
         for i in ids:
@@ -1256,8 +1304,8 @@ def gen_shape_modules(cases, dropped=()):
         order.append((ids[0], pkg))
     order.sort()
     main = ["// generated by /verif/vlib/c19.py (call shapes)", "package main", "", "import ("]
-    main += ['\t"c19prog/ck"', '\t"c19prog/pyx"'] + ['\t"c19prog/%s"' % pkg for _, pkg in order] + ['', '\t"github.com/goplus/lib/c"', ")", ""]
-    main.append('func main() {\n\tif p := pyx.Getenv(c.Str("C19_ONLY")); p != nil {\n\t\tck.Only = int(c.Atoi(p))\n\t}')
+    main += ['\t"c19prog/%s"' % pkg for _, pkg in order] + [")", ""]
+    main.append("func main() {")
     main += ["\t%s.Run()" % pkg for _, pkg in order]
     main.append('\tprintln("END")\n}')
     files["main.go"] = "\n".join(main) + "\n"
@@ -1280,9 +1328,13 @@ def parse_shape_protocol(text):
     other = []
     for line in text.splitlines():
         p = line.split(" ")
-        if p[0] == "G" and len(p) == 2 and p[1].isdigit():
+        if p[0] in ("S", "E") and len(p) == 2 and p[1].isdigit():
+            other.append(line)                     # brackets of a call made during package initialisation
+            if p[0] == "E" and cur == int(p[1]):
+                cur = None
+        elif p[0] == "G" and len(p) == 2 and p[1].isdigit():
             cur = int(p[1])
-            obs[cur] = []
+            obs.setdefault(cur, [])                # (a case whose call is made during initialisation resumes in main)
         elif p[0] in ("F", "R") and cur is not None:
             obs[cur].append(line)
         else:
@@ -1298,16 +1350,21 @@ def run_shape_cases(cmd, env, ids, timeout=120):
         e["C19_ONLY"] = str(i)
         st, so, _ = C.run_exe(cmd[0], args=cmd[1:], timeout=timeout, env=e, merge=True)
         o, _, other = parse_shape_protocol(so)
-        return i, st, o.get(i), "END" in other, so[-600:]
+        opened = [int(x[2:]) for x in other if x.startswith("S ")]
+        closed = [int(x[2:]) for x in other if x.startswith("E ")]
+        return i, st, o.get(i), "END" in other, so[-600:], [j for j in opened if j not in closed]
     obs = {}
     crashed = {}
+    initdead = {}               # a call made during package initialisation that never returned: every process dies there
     with ThreadPoolExecutor(max_workers=4) as ex:
-        for i, st, lines, ended, tail in ex.map(one, ids):
+        for i, st, lines, ended, tail, stuck in ex.map(one, ids):
+            for j in stuck:
+                initdead.setdefault(j, (st, tail))
             if lines is not None:
                 obs[i] = lines
             if st != 0 or not ended:
                 crashed[i] = (st, tail)
-    return obs, crashed
+    return obs, crashed, initdead
 
 
 def llgo_build_verbose(moddir, out, rundir, timeout=1500):
@@ -1330,14 +1387,14 @@ def part_callshapes(chk):
     bykey = {}
     for c in C.tlc_printed_iter(res):
         bykey[shape_case_key(c)] = c
-    famrank = {"dual": 0, "govar": 1, "hypot": 2, "funcref": 3, "colookup": 4}
+    famrank = {"dual": 0, "govar": 1, "hypot": 2, "funcref": 3, "colookup": 4, "site": 5}
     cases = [c for _, c in sorted(bykey.items(), key=lambda kc: (famrank[kc[1]["fam"]], kc[0]))]
     counts = {}
     for c in cases:
-        if c["fam"] == "colookup":
-            c["_alias"] = counts.get("colookup", 0)
+        if c["fam"] in ("colookup", "site"):
+            c["_alias"] = counts.get(c["fam"], 0)
         counts[c["fam"]] = counts.get(c["fam"], 0) + 1
-    if counts.get("colookup", 0) > 16:
+    if max(counts.get("colookup", 0), counts.get("site", 0)) > 16:
         raise C.Undecided("pylib defines 16 sets of per-case names, PyCallShapes has %d colookup cases" % counts["colookup"])
     if sorted(counts) != sorted(famrank):
         raise C.Undecided("PyCallShapes printed no cases for some family: %r" % counts)
@@ -1381,7 +1438,19 @@ def part_callshapes(chk):
             "this case" if len(ids) == 1 else "%d cases" % len(ids), m.group(0) if m else "see replay"),
             {"cases": [cases[i] for i in ids[:4]], "package": files_of(cases, pkg), "llgo_output_tail": out})
     built = [i for i, c in enumerate(cases) if shape_pkg_of(i, c) not in dropped]
-    obs, crashed = run_shape_cases([exe], py_env({"VERIF_C19_HOOK": "0"}), built)
+    obs, crashed, initdead = run_shape_cases([exe], py_env({"VERIF_C19_HOOK": "0"}), built)
+    if initdead:
+        # the program dies while its packages are initialised, inside the bracketed call of these cases; nothing else can be judged
+        for j, (stj, tailj) in sorted(initdead.items()):
+            chk.reject(shape_case_key(cases[j]), "the program dies during package initialisation inside the call of this case (status %s): "
+                       "expected %r" % (stj, exp[j]), {"case": cases[j], "expected": exp[j], "go_calls": shape_go_calls(cases[j]),
+                                                       "package": files_of(cases, shape_pkg_of(j, cases[j])), "output_tail": tailj})
+        C.log("note: call-shape cases other than %s were not judged (the program never reaches main)" % sorted(initdead))
+        with _LOCK:
+            chk.cov["callshape_cases"] = dict(counts, built=len(built), died_in_init=sorted(shape_case_key(cases[j]) for j in initdead))
+        bump(chk, "evaluations", len(initdead))
+        bump(chk, "traces_validated_against_impl", len(initdead))
+        return
     if not obs and crashed:
         st0, tail0 = crashed[built[0]]
         chk.reject("callshapes:died-outside-a-case", "the call-shape program ends with status %s before it reaches any case (interpreter "
@@ -1470,7 +1539,7 @@ def check(chk):
                        "linked with libpython3.11 and judged on (what Python logged, what Go read back dynamically, typed read-back). "
                        "call-shape case (PyCallShapes) = two declarations of one attribute with 0-3 parameters called one after the other / "
                        "Go-variadic binding called with 0-3 literal or spread arguments / math.Hypot / a bound Python function passed as "
-                       "an argument at each position / every non-empty subset of {vmod.who, vpk.alpha, vpk.sub.who, vpk.zeta} called from one Go package: judged on what Python logged per call and what Go read back, one process restart per "
+                       "an argument at each position / every non-empty subset of {vmod.who, vpk.alpha, vpk.sub.who, vpk.zeta} called from one Go package / a Python function called from one kind of place only (function, closure, method, package-level initialiser, init function, generic function instance, method of a generic type instance, generic of another package instantiated here): judged on what Python logged per call and what Go read back, one process restart per "
                        "crashing case, one Go package per case where the compiler's state matters. "
                        "import case = program shape built and run (one seeded shape plus fixed shapes with a binding package that is imported and never called), judged on import requests per module and membership of the observed "
                        "event order in the TLC-enumerated set; non-trivial = distinct expected observation")
